@@ -705,11 +705,21 @@ def rule_map_first(ctx: RuleContext, p: Program, rid: str) -> None:
     ctx.rule(rid, 'the key-addressed methods of the meta mapping views (__getitem__, __setitem__, __delitem__, pop, __contains__ with a '
                   'str key), interpreted from their ASTs over every key layout of up to 3 items (duplicates included): each addresses the '
                   'FIRST item carrying the key -- the one reads return -- appends when the key is absent (set), and raises KeyError / '
-                  'returns the default otherwise; all five agree on which item a key means')
+                  'returns the default otherwise -- pop(key, d) returns d for an absent key whatever d is (None, 0, \'\', False included), as dict.pop does; all five agree on which item a key means')
     m = p.module('models.meta_item_internal')
     ts = TS(p)
     wrappers = [p.cls('RepeatedRawMetaItemWrapper', 'models.meta_item_internal'), p.cls('RepeatedMetaItemWrapper', 'models.meta_item_internal')]
     n = 0
+    # module-level sentinels (`_EMPTY = _Empty()`, whatever they are called): one object each, of a class of this module
+    local_classes = {c.name for c in m.tree.body if isinstance(c, ast.ClassDef)}
+    sentinels: dict[str, Any] = {}
+    for st_ in m.tree.body:
+        tg_ = st_.targets[0] if isinstance(st_, ast.Assign) and len(st_.targets) == 1 else st_.target if isinstance(st_, ast.AnnAssign) else None
+        val_ = getattr(st_, 'value', None)
+        if isinstance(tg_, ast.Name) and isinstance(val_, ast.Call) and not val_.args and not val_.keywords:
+            cn = norm(val_.func)
+            if cn in local_classes or cn == 'object':
+                sentinels[tg_.id] = possem.Obj(cn, {}, tg_.id)
 
     class Interp(possem.PosInterp):
         tag = 'MAP-FIRST'
@@ -727,9 +737,9 @@ def rule_map_first(ctx: RuleContext, p: Program, rid: str) -> None:
 
         def expr(self, e: Any, env: dict) -> Any:                 # type: ignore[override]
             if isinstance(e, ast.Name) and e.id not in env:
-                if e.id == '_EMPTY':
-                    return possem.Obj('_Empty', {}, 'EMPTY')
-                if e.id in ('_Empty', 'MetaItem', 'KeyError'):
+                if e.id in sentinels:
+                    return sentinels[e.id]
+                if e.id in ('MetaItem', 'KeyError') or e.id in local_classes:
                     return possem.ClassRef(e.id)
                 if e.id == 'str':
                     return possem.Builtin('str')
@@ -824,7 +834,9 @@ def rule_map_first(ctx: RuleContext, p: Program, rid: str) -> None:
                 return None
             raise self.err(node, f'sequence operation {name}')
 
-    def run_case(w: Any, method: str, keys: tuple, key: str) -> Optional[str]:
+    NO_DEFAULT = object()
+
+    def run_case(w: Any, method: str, keys: tuple, key: str, default: Any = NO_DEFAULT) -> Optional[str]:
         nonlocal n
         fn = w.lookup(method)
         if not isinstance(fn, FuncInfo) or fn.cls not in wrappers:
@@ -839,6 +851,8 @@ def rule_map_first(ctx: RuleContext, p: Program, rid: str) -> None:
         args: list = [wrapper, key]
         if method == '__setitem__':
             args.append(newv if w is wrappers[1] else possem.Obj('MetaItem', {'key': key, 'value': newv}, 'newitem'))
+        if default is not NO_DEFAULT:
+            args.append(default)
         n += 1
         raised = None
         res = None
@@ -856,6 +870,11 @@ def rule_map_first(ctx: RuleContext, p: Program, rid: str) -> None:
                 ok = raised is None and len(it.events) == 1 and it.events[0][0] == 'append' and len(items) == len(keys) + 1 \
                     and items[-1].f.get('key') == key and items[:-1] == before
                 return None if ok else f'{where_}: assigning an absent key does not append exactly one item with that key ({it.events}, raised {raised})'
+            if default is not NO_DEFAULT:
+                # dict.pop(key, default): ANY explicit default -- None, 0, '' and False included -- is returned for an absent key
+                ok = raised is None and res is default and not it.events
+                return None if ok else (f'{where_}: pop(key, {default!r}) on an absent key gives {res!r} / {raised} with effects {it.events}; '
+                                        f'dict.pop returns the default that was passed, whatever it is')
             ok = raised is not None and 'KeyError' in raised and not it.events
             return None if ok else f'{where_}: an absent key gives {res!r} / {raised} with effects {it.events} instead of KeyError'
         if raised is not None:
@@ -889,6 +908,12 @@ def rule_map_first(ctx: RuleContext, p: Program, rid: str) -> None:
                     cnt += 1
                     if pr and problem is None:
                         problem = pr
+                    if method == 'pop':
+                        for dflt in (None, 0, False, '', possem.Obj('Default', {}, 'D')):
+                            pr = run_case(w, method, keys, key, dflt)
+                            cnt += 1
+                            if pr and problem is None:
+                                problem = pr
             fnm = w.lookup(method)
             if not isinstance(fnm, FuncInfo) or fnm.cls not in wrappers:
                 continue
